@@ -237,6 +237,26 @@ func (e *Engine) scanGlobals() {
 	// stores to globals outside init
 	for fn := range ssautil.AllFunctions(e.prog) {
 		if fn.Name() == "init" || strings.HasPrefix(fn.Name(), "init#") {
+			for _, b := range fn.Blocks {
+				for _, ins := range b.Instrs {
+					st, ok := ins.(*ssa.Store)
+					if !ok {
+						continue
+					}
+					g, ok := st.Addr.(*ssa.Global)
+					if !ok {
+						continue
+					}
+					switch v := st.Val.(type) {
+					case *ssa.Call:
+						if cal := v.Call.StaticCallee(); cal != nil && cal.Pkg != nil && cal.Pkg.Pkg.Path() == "errors" && cal.Name() == "New" {
+							e.globalInit[g] = "*errors.errorString"
+						}
+					case *ssa.MakeInterface:
+						e.globalInit[g] = types.TypeString(v.X.Type(), nil)
+					}
+				}
+			}
 			continue
 		}
 		for _, b := range fn.Blocks {
@@ -295,6 +315,7 @@ type Unit struct {
 	specOrder     []string
 	entry         *State
 	typedArrs     map[int]bool
+	assumed       map[int]bool
 	paramVals     map[string]Val
 	err           error
 }
@@ -308,7 +329,7 @@ func (e *Engine) newUnit(con *Contract) *Unit {
 	u := &Unit{eng: e, con: con, ci: ci, fn: ci.fn, m: newModel(mode), counter: map[string]int{}, labelSeen: map[string]int{},
 		heapSorts: map[string]Sort{}, ghosts: map[*ghostCell]bool{}, loopCtxs: map[*loopInfo]*loopCtx{}, havocs: map[string]int{},
 		calleesUsed: map[string]string{}, globalsUsed: map[*ssa.Global]bool{}, tableDone: map[*ssa.Global]bool{}, sentinels: map[*ssa.Global]bool{},
-		allocCache: map[allocKey]*ssa.Alloc{}, specs: map[string]*specDef{}, paramVals: map[string]Val{}, typedArrs: map[int]bool{}}
+		allocCache: map[allocKey]*ssa.Alloc{}, specs: map[string]*specDef{}, paramVals: map[string]Val{}, typedArrs: map[int]bool{}, assumed: map[int]bool{}}
 	u.name = con.pkg.Types.Name() + "." + con.name
 	u.checkOverflow = mode == ModeInt
 	return u
@@ -322,7 +343,10 @@ func (u *Unit) run() (err error) {
 				err = ee
 				return
 			}
-			panic(r)
+			if os.Getenv("GOVC_PANIC") != "" {
+				panic(r)
+			}
+			err = fmt.Errorf("%s: internal error: %v", u.name, r)
 		}
 	}()
 	m := u.m
@@ -368,19 +392,29 @@ func (u *Unit) run() (err error) {
 		return nil
 	}
 	// postconditions
-	env := u.paramEnv(rst, u.entry)
-	for i, r := range u.ci.results {
-		env.vars[r] = vals[i]
-	}
-	if len(vals) == 1 {
-		env.vars["result"] = vals[0]
-	}
 	ens := u.con.get("ensures")
-	for _, cl := range ens {
-		g := u.evalIn(env, cl)
-		u.oblige("post", labelOr(cl, ens), rst, g, token.NoPos, cl.text)
+	post := func(rst *State, vals []Val, suffix string) {
+		env := u.paramEnv(rst, u.entry)
+		for i, r := range u.ci.results {
+			env.vars[r] = vals[i]
+		}
+		if len(vals) == 1 {
+			env.vars["result"] = vals[0]
+		}
+		for _, cl := range ens {
+			g := u.evalIn(env, cl)
+			u.oblige("post", labelOr(cl, ens)+suffix, rst, g, token.NoPos, cl.text)
+		}
+	}
+	if u.con.split && len(rets) > 1 {
+		for i, r := range rets {
+			post(r.st, r.vals, fmt.Sprintf("@ret%d", i))
+		}
+	} else {
+		post(rst, vals, "")
 	}
 	u.frameObligations(rst)
+	u.probe("return", rst)
 	return nil
 }
 
